@@ -6,7 +6,7 @@ from vp import core
 
 PROP_ID = 'C18'
 LEVEL = 'exploration'
-BUDGET = {'quick': 10000, 'thorough': 150000}
+BUDGET = {'quick': 15000, 'thorough': 150000}
 RULE = ('Model-based histories: Hypothesis draws op-lists (<=25 ops: append, extend, +=, insert, '
         'setitem, delitem int/slice, pop, getitem int/slice/list/ndarray, by_label, set_order) over a '
         'pool of 8 compatible frames (varying tchans/t_start, two value-equal twins, one of opposite orientation with equal '
